@@ -58,7 +58,8 @@ var sortPolicies = []sortPolicyDef{
 	{"binpacking", nil},
 	{"fair", map[string]float64{"vcore": 3, "memory": 1}},
 	{"binpacking", map[string]float64{"memory": 1, "gpu": 2}},
-	{"undefined-policy", nil}, // NewNodeSortingPolicy returns nil: every score is 0
+	{"nil", nil},              // SetNodeSortingPolicy(nil): every score is 0
+	{"undefined-policy", nil}, // NewNodeSortingPolicy falls back to fairness for an unknown name
 }
 
 // order-preserving image of a float64 (NaN reported separately)
@@ -98,6 +99,10 @@ func newSortNodeWorld(policy int) *sortNodeWorld {
 	w := &sortNodeWorld{nc: objects.NewNodeCollection("default"), nodes: map[int]*objects.Node{}, allocs: map[int]*objects.Allocation{},
 		reserved: map[int]map[int]*objects.Allocation{}}
 	for _, p := range sortPolicies {
+		if p.typ == "nil" {
+			w.pols = append(w.pols, nil)
+			continue
+		}
 		w.pols = append(w.pols, objects.NewNodeSortingPolicy(p.typ, p.weights))
 	}
 	w.nc.SetNodeSortingPolicy(w.pols[policy])
@@ -413,12 +418,12 @@ func (c *SortNodeCase) coq() string {
 func sortCoqPolicies() string {
 	items := make([]string, len(sortPolicies))
 	for i, p := range sortPolicies {
-		kind := 2
+		kind := 0 // fairness, also for names SortingPolicyFromString does not know
 		switch p.typ {
-		case "fair":
-			kind = 0
 		case "binpacking":
 			kind = 1
+		case "nil":
+			kind = 2
 		}
 		ws := []string{}
 		for _, name := range sortResNames {
